@@ -48,6 +48,8 @@ RULES = [
     "(CBMC does not terminate on the drop glue of heap-stored recursive syntax; the harness supplies `as_slice` on slices as the identity)",
     "R10 the block of one match arm, selected by a regex on its pattern, may be copied and wrapped as the body of a function whose parameters are "
     "the arm's pattern bindings and free variables (given by the template); an unused `_` loop pattern inside may be given a name so invariants can mention it",
+    "R11 in an extracted function the sub-pattern `ZValue::Thunk(_)` may be weakened to `_`: continuation arguments are then not required to be "
+    "thunks (the function only clones and forces them); positions, order, arity and everything else stay the repository's",
     "R6 a trait-impl method may be emitted inside an inherent impl (Verus forbids requires on trait impls); its text is unchanged",
     "R7 `Self::` / `Self` may be replaced by the concrete type name when a method is lifted out of its impl (option self_ty)",
 ]
@@ -375,6 +377,10 @@ def extract_fn(repo, header, contract, ex, body_only=False):
             opts.setdefault('vec_as_slice', []).append(m.group(1))
             cur = None
             continue
+        if l == 'weaken_thunk_patterns':
+            opts['weaken_thunk'] = True
+            cur = None
+            continue
         if l == 'nopub':
             opts['nopub'] = True
             cur = None
@@ -414,6 +420,14 @@ def extract_fn(repo, header, contract, ex, body_only=False):
         head = _pubify_item(head)
     if opts['name']:
         head = re.sub(r'\bfn\s+' + re.escape(name) + r'\b', 'fn ' + opts['name'], head, count=1)
+    if opts.get('weaken_thunk'):
+        # R11: the sub-pattern `ZValue::Thunk(_)` (wildcard payload: it can only occur in a pattern) becomes `_`. The function then
+        # accepts non-thunk values in continuation positions and treats them exactly as it treats thunks (it only clones and forces
+        # them), so harnesses can use distinguishable marker values where CBMC cannot handle a real EnvThunk.
+        body, n_w = re.subn(r'\b(?:ZValue|SemValue)::Thunk\(\s*(?:_|\.\.)\s*\)', '_', body)
+        if n_w == 0:
+            raise ExtractError(f'{label}: R11: no `ZValue::Thunk(_)` sub-pattern found')
+        ex.rewrites.append(f'{label}: {n_w} sub-pattern(s) `ZValue::Thunk(_)` weakened to `_` (R11)')
     for pn in opts.get('vec_as_slice', []):
         # R9: parameter `p: Vec<T>` becomes `p: &[T]` -- only if every use of p in the body is `p.as_slice()` or `&p`
         pm = re.search(r'\b' + re.escape(pn) + r'\s*:\s*Vec<', head)
